@@ -655,3 +655,149 @@ Example C10_nonvacuous_trailing :
   is_err (RecoverRawTransaction H_triv RD_triv
             (encode (Str [x02]) ++ [xcc; x01; x05; x02; x03; x04; x80; x06; x80; xc0; x01; x07; x08]) 1) = false.
 Proof. vm_compute. auto. Qed.
+
+(* ====================================================================================================
+   Wave 6 (proofs: Tx/RecoverProofs8.v).  ONE statement per entry point carrying every clause of the
+   property at once, with C05's RecoverDirect plugged in (no law of RecoverDirect assumed) - the parts
+   were spread over theorems 9 (elements), 10/11 (format and preimage, key only up to parity) and 14
+   (recovery id, but no payload); here they are about the SAME decoded list, the SAME V element and
+   the SAME parity [par]:
+   - the key q is THE point ecdsa_recover computes from (H(payload), r, s) with y-parity par, it is
+     not the point at infinity, the returned address is q's and (r,s) verify for q;
+   - legacy: V = 27+par and the payload is the original-format preimage of the returned fields, or
+     V is not of the original form, V = 35+2*chain+par and the payload is the EIP-155 preimage for
+     |chain| (both modulo 2^64, see theorem 12) - the parity that selects the key is the parity read
+     from V in the form that selects the preimage;
+   - type 0x02: 0 <= chain, embedded chain id = supplied one, and the V values accepted are NAMED
+     (this closes the "v_norm ... = Some vB, not narrowed" entry of [partial]): with v the int64
+     value of element 9, v = par, v = 27+par or v = 35+2*chain+par (C05's [legit_V]), or v lies in
+     C05's known-finding region [v_alias] (an EIP-155 form shifted by a non-zero multiple of 256);
+     the payload is 0x02 || RLP of the EIP-1559 list of the returned fields with the input's access
+     list, and IS the specification preimage when that list is empty;
+   - the first six / nine elements of the input are the specification's elements of the returned fields.
+   [_partial] only because of the access list (known finding), as before.  The hypothesis on chain is
+   the range of the Go parameter's type (needed by the legacy EIP-155 preimage only). *)
+From FFS Require Import Tx.RecoverProofs8.
+Theorem C10_sound_secp256k1_complete_partial :
+  forall (o : Crypto.Ecdsa.group_ops), Crypto.Ecdsa.laws o ->
+  forall (H : bytes -> bytes), (forall x, length (H x) = 32%nat) ->
+  forall bs chain a t p, (- 2 ^ 63 <= chain < 2 ^ 63)%Z ->
+    RecoverRawTransaction H (RD_secp o H) bs chain = Ok (a, t, p) ->
+    (exists l pos vb e7 e8 par q,
+      Decode bs = Ok (Some (Lst l), pos) /\ (9 <= length l)%nat /\
+      nth_error l 6 = Some (Str vb) /\ nth_error l 7 = Some e7 /\ nth_error l 8 = Some e8 /\
+      (par = 0 \/ par = 1)%Z /\
+      ( (V_original_p (Z.of_N (of_be vb)) par /\ p = spec_preimage Original (norm t) 0) \/
+        (~ V_original (Z.of_N (of_be vb)) /\ V_eip155_p (Z.of_N (of_be vb)) chain par /\
+         p = spec_preimage Eip155 (norm t) (Z.abs_N chain)) ) /\
+      map to_tree (firstn 6 l) = legacy_body (norm t) /\
+      Crypto.Ecdsa.ecdsa_recover o (Secp.Model.hash_to_z (H p))
+        (Z.of_N (elem_int e7)) (Z.of_N (elem_int e8)) (par =? 1)%Z = Some q /\
+      q <> Crypto.Ecdsa.zero o /\ a = secp_addr_of o H q /\
+      secp_verify o q (H p) (Z.of_N (elem_int e7)) (Z.of_N (elem_int e8)))
+    \/
+    (exists rest l pos c0 al vb e10 e11 par q,
+      (0 <= chain)%Z /\
+      bs = x02 :: rest /\ Decode rest = Ok (Some (Lst l), pos) /\ (12 <= length l)%nat /\
+      nth_error l 0 = Some (Str c0) /\ Z.of_N (of_be c0) = chain /\
+      nth_error l 8 = Some (Lst al) /\ nth_error l 9 = Some (Str vb) /\
+      nth_error l 10 = Some e10 /\ nth_error l 11 = Some e11 /\
+      (par = 0 \/ par = 1)%Z /\
+      Secp.Proofs.v_norm (wrap64 (Z.of_N (of_be vb))) chain = Some (27 + par)%Z /\
+      (Secp.Proofs.legit_V par chain (wrap64 (Z.of_N (of_be vb))) \/
+       Secp.Proofs.v_alias (wrap64 (Z.of_N (of_be vb))) chain) /\
+      map to_tree (firstn 9 l) = eip1559_body_al (norm t) (Z.to_N chain) (L (map to_tree al)) /\
+      p = x02 :: RLP (L (eip1559_body_al (norm t) (Z.to_N chain) (L (map to_tree al)))) /\
+      (al = [] -> p = spec_preimage Eip1559 (norm t) (Z.to_N chain)) /\
+      Crypto.Ecdsa.ecdsa_recover o (Secp.Model.hash_to_z (H p))
+        (Z.of_N (elem_int e10)) (Z.of_N (elem_int e11)) (par =? 1)%Z = Some q /\
+      q <> Crypto.Ecdsa.zero o /\ a = secp_addr_of o H q /\
+      secp_verify o q (H p) (Z.of_N (elem_int e10)) (Z.of_N (elem_int e11))).
+Proof. exact raw_complete. Qed.
+Print Assumptions C10_sound_secp256k1_complete_partial.
+
+(* the same for the two entry points called directly; the type-0x02 one needs NO hypothesis on the
+   chain id (it concludes 0 <= chain) *)
+Theorem C10_sound_secp256k1_complete_legacy_entry :
+  forall (o : Crypto.Ecdsa.group_ops), Crypto.Ecdsa.laws o ->
+  forall (H : bytes -> bytes), (forall x, length (H x) = 32%nat) ->
+  forall bs chain a t p, (- 2 ^ 63 <= chain < 2 ^ 63)%Z ->
+    RecoverLegacyRawTransaction H (RD_secp o H) bs chain = Ok (a, t, p) ->
+    exists l pos vb e7 e8 par q,
+      Decode bs = Ok (Some (Lst l), pos) /\ (9 <= length l)%nat /\
+      nth_error l 6 = Some (Str vb) /\ nth_error l 7 = Some e7 /\ nth_error l 8 = Some e8 /\
+      (par = 0 \/ par = 1)%Z /\
+      ( (V_original_p (Z.of_N (of_be vb)) par /\ p = spec_preimage Original (norm t) 0) \/
+        (~ V_original (Z.of_N (of_be vb)) /\ V_eip155_p (Z.of_N (of_be vb)) chain par /\
+         p = spec_preimage Eip155 (norm t) (Z.abs_N chain)) ) /\
+      map to_tree (firstn 6 l) = legacy_body (norm t) /\
+      Crypto.Ecdsa.ecdsa_recover o (Secp.Model.hash_to_z (H p))
+        (Z.of_N (elem_int e7)) (Z.of_N (elem_int e8)) (par =? 1)%Z = Some q /\
+      q <> Crypto.Ecdsa.zero o /\ a = secp_addr_of o H q /\
+      secp_verify o q (H p) (Z.of_N (elem_int e7)) (Z.of_N (elem_int e8)).
+Proof. exact legacy_complete. Qed.
+Print Assumptions C10_sound_secp256k1_complete_legacy_entry.
+
+Theorem C10_sound_secp256k1_complete_eip1559_entry_partial :
+  forall (o : Crypto.Ecdsa.group_ops), Crypto.Ecdsa.laws o ->
+  forall (H : bytes -> bytes), (forall x, length (H x) = 32%nat) ->
+  forall bs chain a t p,
+    RecoverEIP1559Transaction H (RD_secp o H) bs chain = Ok (a, t, p) ->
+    exists rest l pos c0 al vb e10 e11 par q,
+      (0 <= chain)%Z /\
+      bs = x02 :: rest /\ Decode rest = Ok (Some (Lst l), pos) /\ (12 <= length l)%nat /\
+      nth_error l 0 = Some (Str c0) /\ Z.of_N (of_be c0) = chain /\
+      nth_error l 8 = Some (Lst al) /\ nth_error l 9 = Some (Str vb) /\
+      nth_error l 10 = Some e10 /\ nth_error l 11 = Some e11 /\
+      (par = 0 \/ par = 1)%Z /\
+      Secp.Proofs.v_norm (wrap64 (Z.of_N (of_be vb))) chain = Some (27 + par)%Z /\
+      (Secp.Proofs.legit_V par chain (wrap64 (Z.of_N (of_be vb))) \/
+       Secp.Proofs.v_alias (wrap64 (Z.of_N (of_be vb))) chain) /\
+      map to_tree (firstn 9 l) = eip1559_body_al (norm t) (Z.to_N chain) (L (map to_tree al)) /\
+      p = x02 :: RLP (L (eip1559_body_al (norm t) (Z.to_N chain) (L (map to_tree al)))) /\
+      (al = [] -> p = spec_preimage Eip1559 (norm t) (Z.to_N chain)) /\
+      Crypto.Ecdsa.ecdsa_recover o (Secp.Model.hash_to_z (H p))
+        (Z.of_N (elem_int e10)) (Z.of_N (elem_int e11)) (par =? 1)%Z = Some q /\
+      q <> Crypto.Ecdsa.zero o /\ a = secp_addr_of o H q /\
+      secp_verify o q (H p) (Z.of_N (elem_int e10)) (Z.of_N (elem_int e11)).
+Proof. exact eip1559_complete. Qed.
+Print Assumptions C10_sound_secp256k1_complete_eip1559_entry_partial.
+
+(* the int64 reduction of the type-0x02 V element is the identity for an element of at most 7 bytes:
+   the [wrap64] above can then be read away and [legit_V] speaks of the integer written in the input *)
+Theorem C10_eip1559_v_no_reduction :
+  forall vb, (length vb <= 7)%nat -> wrap64 (Z.of_N (of_be vb)) = Z.of_N (of_be vb).
+Proof. exact short_v_no_reduction. Qed.
+Print Assumptions C10_eip1559_v_no_reduction.
+
+(* the new theorems are not vacuous and every disjunct of the type-0x02 V clause is inhabited: under the
+   toy group (which satisfies [laws]) and toyH, the type-0x02 input of C10_nonvacuous_secp256k1 (empty
+   access list, chain 1) is accepted with V = 1 (plain parity), V = 28, V = 38 = 35+2*1+1 (the three
+   [legit_V] forms of parity 1) and V = 294 = 38+256 (the [v_alias] region, C05's known finding) - all
+   four with the SAME address -, with V = 0 and V = 37 giving the OTHER address (parity 0), V = 2 is
+   refused; each of the values is what [legit_V] / [v_alias] say *)
+Example C10_nonvacuous_complete :
+  let RD := RD_secp Crypto.Ecdsa.Toy.ops toyH in
+  let typed v := [x02; xcc; x01; x05; x02; x03; x04; x80; x06; x80; xc0; v; x02; x03] in
+  let typed294 := [x02; xce; x01; x05; x02; x03; x04; x80; x06; x80; xc0; x82; x01; x26; x02; x03] in
+  let a_of bs := match RecoverRawTransaction toyH RD bs 1 with Ok (a, _, _) => Some a | _ => None end in
+  (exists a t p, RecoverRawTransaction toyH RD (typed x01) 1 = Ok (a, t, p) /\
+     p = spec_preimage Eip1559 (norm t) 1) /\
+  a_of (typed x01) <> None /\
+  a_of (typed x1c) = a_of (typed x01) /\ a_of (typed x26) = a_of (typed x01) /\ a_of typed294 = a_of (typed x01) /\
+  a_of (typed x80) <> None /\ a_of (typed x80) <> a_of (typed x01) /\ a_of (typed x25) = a_of (typed x80) /\
+  a_of (typed x02) = None /\
+  Secp.Proofs.legit_V 1 1 1 /\ Secp.Proofs.legit_V 1 1 28 /\ Secp.Proofs.legit_V 1 1 38 /\
+  Secp.Proofs.v_alias 294 1 /\ ~ Secp.Proofs.legit_V 1 1 294 /\ ~ Secp.Proofs.legit_V 0 1 294.
+Proof.
+  cbv zeta.
+  split; [do 3 eexists; split; [vm_compute; reflexivity|vm_compute; reflexivity]|].
+  split; [vm_compute; discriminate|].
+  split; [vm_compute; reflexivity|]. split; [vm_compute; reflexivity|]. split; [vm_compute; reflexivity|].
+  split; [vm_compute; discriminate|]. split; [vm_compute; discriminate|]. split; [vm_compute; reflexivity|].
+  split; [vm_compute; reflexivity|].
+  unfold Secp.Proofs.legit_V, Secp.Proofs.v_alias.
+  split; [lia|]. split; [lia|]. split; [lia|].
+  split; [|split; lia].
+  split; [reflexivity|]. repeat (split; [lia|]). exists 1%Z, 1%Z. lia.
+Qed.
